@@ -25,11 +25,12 @@ from ..canon import fingerprint
 from ..explorer import Step
 
 PROPERTY = "C19"
-ALPHABET = "closing routes: close_connection / received GOAWAY / FRAME_SIZE, PROTOCOL, FLOW_CONTROL connection errors; post-close: all sending calls on ids {1,2,3,5}, acknowledge_received_data, close_connection, and frames of every type on ids {0,1,2,3}"
+ALPHABET = "closing routes: close_connection (default arguments / last_stream_id=2^31-1) / received GOAWAY (alone / after a PING or SETTINGS in the same chunk) / FRAME_SIZE, PROTOCOL, FLOW_CONTROL connection errors; post-close: all sending calls on ids {1,2,3,5}, acknowledge_received_data, close_connection, and frames of every type on ids {0,1,2,3}"
 BOUNDS = {"quick": "all base states x 5 closing routes x both roles, post-close depth 2 (after the drain step)", "thorough": "post-close depth 3"}
 sb = H.stateless_block
 
-ROUTES = ["close_connection", "rx-goaway", "err-frame-size", "err-protocol", "err-flow-control"]
+ROUTES = ["close_connection", "close_connection-last-max", "rx-goaway", "rx-ping+goaway", "rx-settings+goaway",
+          "err-frame-size", "err-protocol", "err-flow-control"]
 MUST_RAISE = ("send_headers", "send_data", "end_stream", "increment_flow_control_window", "push_stream", "ping",
               "reset_stream", "update_settings", "advertise_alternative_service", "prioritize")
 
@@ -75,14 +76,22 @@ def base_conn(client, name):
 
 def close_it(conn, client, route):
     """-> (ok, obs)"""
-    if route == "close_connection":
+    if route.startswith("close_connection"):
         try:
-            conn.close_connection(0)
+            if route == "close_connection":
+                conn.close_connection(0)
+            else:
+                conn.close_connection(0, last_stream_id=2 ** 31 - 1)       # legal: "no stream was refused" (RFC 7540 6.8)
         except Exception:  # noqa: BLE001
             return False
         return True
     if route == "rx-goaway":
         data = wire.goaway(0, 0, b"bye").serialize()
+    elif route == "rx-ping+goaway":
+        # frames that call for an automatic reply, followed by the GOAWAY in the same chunk
+        data = wire.ping(b"12345678").serialize() + wire.goaway(0, 0, b"bye").serialize()
+    elif route == "rx-settings+goaway":
+        data = wire.settings([(4, 70000)]).serialize() + wire.goaway(0, 0, b"bye").serialize()
     elif route == "err-frame-size":
         data = wire.raw(wire.PING, 0, 0, b"short").serialize()
     elif route == "err-protocol":
@@ -92,8 +101,8 @@ def close_it(conn, client, route):
     try:
         conn.receive_data(data)
     except Exception:  # noqa: BLE001
-        return route != "rx-goaway"
-    return route == "rx-goaway"
+        return not route.startswith("rx-")
+    return route.startswith("rx-")
 
 
 class S:
@@ -152,9 +161,9 @@ class Spec:
             for route in ROUTES:
                 conn = base_conn(self.client, name)
                 pre = b""
-                if name == "fresh" and not self.client and route != "close_connection":
+                if name == "fresh" and not self.client and not route.startswith("close_connection"):
                     conn.receive_data(wire.PREFACE)
-                if name == "preface-half" and route != "close_connection":
+                if name == "preface-half" and not route.startswith("close_connection"):
                     conn.receive_data(wire.PREFACE[10:])
                 if name != "pending-output":
                     conn.data_to_send()
@@ -199,7 +208,7 @@ class Spec:
             st.first = False
             o = H.Obs()
             H.drain(conn, o)
-            if st.route == "rx-goaway":
+            if st.route.startswith("rx-"):
                 if o.raw:
                     bad("output-not-discarded-on-goaway", "after receiving GOAWAY data_to_send() returned %d bytes: %s" % (
                         len(o.raw), [f.brief() for f in o.frames]), base=st.base)
